@@ -6,7 +6,8 @@ CRATES = ("netconf", "bgpfu_junos_agent")
 
 
 class Arm:
-    def __init__(self, a):
+    def __init__(self, a, lets=None):
+        self.lets = lets or {}
         self.node = a
         self.sp = a.get("sp") or {}
         p = a["pat"]
@@ -93,6 +94,13 @@ class Arm:
                 if frag in t and "PartialEq::eq(" in t:
                     lits = [n for n in T.walk(c) if n.get("k") == "Lit" and n.get("lk") in ("bytes", "str")]
                     consts = [n for n in T.walk(c) if n.get("k") == "Const"]
+                    if not lits and not consts and "str::as_bytes(" not in t:
+                        # the name may have been bound to a local first (`let root_name = Self::TAG_NAME.as_bytes();`)
+                        for v in [n for n in T.walk(c) if n.get("k") == "Var" and n.get("name") != (self.tag_bind or "tag") and n.get("name") in self.lets]:
+                            init = self.lets[v["name"]]
+                            lits = [n for n in T.walk(init) if n.get("k") == "Lit" and n.get("lk") in ("bytes", "str")]
+                            consts = [n for n in T.walk(init) if n.get("k") == "Const"]
+                            t = X.ntext(init) if "str::as_bytes(" in X.ntext(init) and not lits and not consts else t
                     if lits:
                         self.name = lits[0]["v"]
                     elif consts:
@@ -160,7 +168,11 @@ class Loop:
         self.match = match
         self.depth = depth
         self.parent_arm = parent_arm
-        self.arms = [Arm(a) for a in match["arms"]]
+        lets = {}
+        for st in T.walk(T.user_body(thir)):
+            if st.get("k") == "LetStmt" and st.get("init") is not None and st.get("pat", {}).get("k") == "Bind":
+                lets.setdefault(st["pat"]["name"], st["init"])
+        self.arms = [Arm(a, lets) for a in match["arms"]]
         self.sp = match.get("sp") or {}
 
     def element_names(self):
